@@ -47,9 +47,12 @@ class Prop(SeqProp):
                 self.build_case([("mk", 0, "exact", [(2, 4), (6, 8)], 0),
                                  ("raw", 1, "partof", [(2, 4), (2, 4), (6, 8), (2, 4)], 0),
                                  ("raw", 2, "exact", [(6, 8), (6, 8)], 2)], binops=True,
-                                label="sets with repeated spans (force_no_dup_check) against smaller sets that contain them")]
+                                label="sets with repeated spans (force_no_dup_check) against smaller sets that contain them"),
+                self.build_case([("mk", 0, "exact", [(2, 6), (8, 12)], 0), ("mk", 1, "exact", [(4, 6), (2, 6)], 2)],
+                                binops=True, probes=[(0, 4, 6), (0, 2, 6)], rerel=[("copy", 0, "partof"), ("inplace", 1, "includes")],
+                                label="relation changed after first use, on a copy and in place")]
 
-    def build_case(self, sets, binops=True, probes=(), label=""):
+    def build_case(self, sets, binops=True, probes=(), label="", rerel=()):
         ops, impl = [], []
         names = []
         for kind, name, rel, spans, form in sets:
@@ -66,6 +69,25 @@ class Prop(SeqProp):
                         ops.append(f"{o} {a} {b}"); impl.append([o, a, b])
         for a, s, e in probes:
             ops.append(f"has {a} {s} {e}"); impl.append(["has", a, s, e])
+        # the relation is an attribute of the object: it may be changed after the set has been used, in place or on a
+        # copy(); everything that follows goes by the relation the operand has *now*
+        nxt = 1000
+        for mode, a, rel in rerel:
+            x = a
+            if mode == "copy":
+                x = nxt; nxt += 1
+                ops.append(f"copy {a} {x}"); impl.append(["copy", a, x])
+            ops.append(f"setrel {x} {rel}"); impl.append(["setrel", x, rel])
+            spans_x = [tuple(sp) for st in impl if st[0] in ("mk", "raw") and st[1] == a for sp in st[3]]
+            for (s0, e0) in spans_x[:3]:
+                for s, e in ((s0, e0), (s0 + 1, e0), (s0 - 1, e0 + 1), (s0, e0 - 1), (e0, e0 + 2)):
+                    ops.append(f"has {x} {s} {e}"); impl.append(["has", x, s, e])
+            for b in names:
+                for l, r in ((x, b), (b, x)):
+                    for o in ("and", "or", "sub", "xor"):
+                        ops.append(f"{o} {l} {r} {nxt}"); impl.append([o, l, r, nxt]); nxt += 1
+                    for o in ("le", "lt", "eq", "ne", "ge", "gt", "disjoint", "subset", "superset"):
+                        ops.append(f"{o} {l} {r}"); impl.append([o, l, r])
         return Case(ops, {"impl": impl}, label)
 
     def gen(self, rng, n, tier):
@@ -95,7 +117,14 @@ class Prop(SeqProp):
                 kind = "raw" if rng.random() < 0.3 else "mk"
                 sets.append((kind, name, rng.choice(RELS), spans, rng.randint(0, 2)))
             probes = [(rng.randrange(nsets), rng.randint(0, universe), rng.randint(0, universe)) for _ in range(4)]
-            yield self.build_case(sets, True, probes)
+            for name in range(nsets):
+                for (s0, e0) in sets[name][3][:2]:  # probes related to, but different from, a stored span
+                    probes.append((name, s0 + rng.choice([-1, 0, 1]), e0 + rng.choice([-1, 0, 1])))
+            rerel = []
+            if rng.random() < 0.45:
+                a = rng.randrange(nsets)
+                rerel.append((rng.choice(["copy", "inplace"]), a, rng.choice([r for r in RELS if r != sets[a][2]])))
+            yield self.build_case(sets, True, probes, rerel=rerel)
 
     def run_impl(self, case):
         from windpyutils.structures import span_set as ss
@@ -135,6 +164,12 @@ class Prop(SeqProp):
                          "ge": lambda: A >= B, "gt": lambda: A > B, "disjoint": lambda: A.isdisjoint(B),
                          "subset": lambda: A.issubset(B), "superset": lambda: A.issuperset(B)}[o]()
                     out.append(f"ret {1 if r else 0}" if isinstance(r, bool) else f"ret ?{r!r}")
+                elif o == "copy":
+                    env[st[2]] = env[st[1]].copy()
+                    out.append("ok " + show(env[st[2]]))
+                elif o == "setrel":
+                    env[st[1]].eq_relation = relcls[st[2]]()
+                    out.append("ok " + show(env[st[1]]))
                 elif o == "has":
                     r = (pyval(st[2]), pyval(st[3], True)) in env[st[1]]
                     out.append(f"ret {1 if r else 0}")
@@ -182,6 +217,14 @@ class Prop(SeqProp):
                 env[st[3]] = ("exact", exp)
                 if not line.startswith("ok") or parse(line) != exp:
                     return f"op {i} {st}: result {line!r}, membership formula gives {exp} for A={A} B={B}"
+            elif o == "copy":
+                env[st[2]] = env[st[1]]
+                if not line.startswith("ok") or parse(line) != env[st[1]][1]:
+                    return f"op {i} {st}: copy() shows {line!r}, the set is {env[st[1]]}"
+            elif o == "setrel":
+                env[st[1]] = (st[2], env[st[1]][1])
+                if not line.startswith("ok") or parse(line) != env[st[1]][1]:
+                    return f"op {i} {st}: after changing the relation the set shows {line!r}, its spans are {env[st[1]][1]}"
             elif o == "has":
                 exp = mem(env[st[1]], (st[2], st[3]))
                 if line != f"ret {1 if exp else 0}":
@@ -205,9 +248,18 @@ class Prop(SeqProp):
         return None
 
     def histogram(self, report, case, impl_out):
-        sets = {st[1]: st[2] for st in case.meta["impl"] if st[0] in ("mk", "raw")}
+        sets = {}
         for st in case.meta["impl"]:
-            if st[0] in ("and", "or", "sub", "xor"):
+            if st[0] in ("mk", "raw"):
+                sets[st[1]] = st[2]
+            elif st[0] == "copy":
+                sets[st[2]] = sets.get(st[1], "?")
+                report.count("op:copy")
+            elif st[0] == "setrel":
+                sets[st[1]] = st[2]
+                report.count("op:setrel")
+            elif st[0] in ("and", "or", "sub", "xor"):
+                sets[st[3]] = "exact"
                 report.count(f"relpair:{sets[st[1]]}x{sets[st[2]]}")
 
     def shrink(self, case, pred):
